@@ -33,7 +33,10 @@ RULE = ("random histories of 2-30 steps over {call, acked/unacked publish, subsc
         "live subscription id; every (request kind x success/ERROR) reply delivered from INSIDE the transport's send() mixed with deferred delivery; "
         "subscribe(obj)/register(obj) with 2-4 decorated methods x every own-options mask x with/without options= x shuffled method names and reply "
         "orders; EVENT/INVOCATION delivered while the UNSUBSCRIBE/UNREGISTER is in flight x 1-2 deliveries x all orders of the three outstanding "
-        "replies x final ok/ERROR (all three also in the random histories). A case is non-trivial when at least one "
+        "replies x final ok/ERROR (all three also in the random histories); sessions with a payload codec (stub IPayloadCodec, enc_algo x_c04): every "
+        "call/publish option, progressive shapes and reply permutations with encoded requests and encoded RESULT/ERROR/EVENT payloads (20% of the random "
+        "sessions); call cancellation: cancel() before/after progress x router answer {RESULT, ERROR canceled, progress+RESULT, progress+ERROR, nothing} x "
+        "position among the other replies x repeated cancel (also random). A case is non-trivial when at least one "
         "router reply/unmatched reply was delivered and compared; distinct = hash(framework, transport config, step list).")
 ASSUMPTIONS = [
     "the scripted router only sends messages a conforming router could send, except for the final 'violate' step",
@@ -58,10 +61,16 @@ ASSUMPTIONS = [
     "decorator options that are an EMPTY options object are not generated",
     "an EVENT (INVOCATION) for a subscription (registration) whose UNSUBSCRIBE (UNREGISTER) is in flight is what a conforming router may send: it must not fail "
     "the transport or touch any other request; whether the detached handler/endpoint still runs is not judged (0 or 1 invocation accepted)",
+    "payload codec: vf.c04_model.C04Codec (CBOR envelope of uri/args/kwargs, no cryptography) set with set_payload_codec(); with it every CALL/PUBLISH must be "
+    "[.., options + enc_algo/enc_serializer, uri, octets] whose envelope opens to the given uri/args/kwargs, and the options must equal those without a codec; the "
+    "router may answer with encoded or plain payloads; INVOCATIONs stay plain; the real cryptobox KeyRing is not driven",
+    "cancellation: fut.cancel()/d.cancel() of a pending call must put exactly one CANCEL [49, id, {mode?}] with the call's id on the wire (none when repeated), complete the "
+    "future once as cancelled and keep the call's record until the router's terminal reply; a later RESULT / ERROR / progressive RESULT for it is absorbed (transport up, "
+    "future unchanged, on_progress 0 or 1 times), a second terminal reply is a protocol violation as for any answered call",
     "pending-table sizes (_call_reqs ...) and txaio.resolve/reject attempt counts are hooks for leak / double-completion detection",
     "the 2^53 boundary is reached by presetting IdGenerator._next after the join",
     "not generated (grey zones): float timeouts, an unsubscribe of the last handler racing with an in-flight subscribe to the same subscription id, progressive results for calls without on_progress, "
-    "reserved kwarg names of CallResult/ApplicationError, payload encryption, call cancellation, "
+    "reserved kwarg names of CallResult/ApplicationError, real payload encryption (KeyRing), "
     "correlation_* options (never serialized), forward_for entries with authid None (accepted by CallOptions, refused by PublishOptions)",
 ]
 DECIDING = {
@@ -84,9 +93,12 @@ DECIDING = {
     "object_form_calls": 100, "object_form_requests_compared": 300, "object_form_completions_compared": 200, "object_form_option_sources": 10,
     "events_during_unsubscribe": 100, "invocations_during_unregister": 100, "outstanding_across_inflight_delivery": 300,
     "own_reply_completions_after_inflight_delivery": 200,
+    "codec_requests_compared": 500, "codec_replies_encoded": 300,
+    "cancels_issued": 200, "cancel_messages_compared": 200, "repeated_cancels_checked": 30, "replies_to_cancelled_call": 200,
+    "cancelled_call_replies": 3, "outstanding_across_reply_to_cancelled": 300, "own_reply_completions_after_absorbed_reply": 200,
 }
 
-DISTINCT_DECIDING = ("sync_reply_kinds", "object_form_option_sources")      # sizes of distinct sets, not counters
+DISTINCT_DECIDING = ("sync_reply_kinds", "object_form_option_sources", "cancelled_call_replies")      # sizes of distinct sets, not counters
 
 SERIALIZERS = ["json", "cbor", "msgpack", "ubjson"]
 RS_MAX_EXP = 12
@@ -121,11 +133,22 @@ def shards(tier, seed):
 def cfg_random(rng):
     r = rng.random()
     if r < 0.7:
-        return {"transport": "websocket", "serializer": rng.choice(["json", "json", "cbor", "cbor", "msgpack", "ubjson"]),
-                "fail_by_drop": rng.random() < 0.5}
-    c = {"transport": "rawsocket", "serializer": rng.choice(SERIALIZERS)}
-    if rng.random() < 0.5:
-        c["rs_max_exp"] = RS_MAX_EXP        # the router announces a 4 KiB limit: oversize requests make send() raise
+        c = {"transport": "websocket", "serializer": rng.choice(["json", "json", "cbor", "cbor", "msgpack", "ubjson"]),
+             "fail_by_drop": rng.random() < 0.5}
+    else:
+        c = {"transport": "rawsocket", "serializer": rng.choice(SERIALIZERS)}
+        if rng.random() < 0.5:
+            c["rs_max_exp"] = RS_MAX_EXP        # the router announces a 4 KiB limit: oversize requests make send() raise
+    if c["serializer"] != "ubjson" and rng.random() < 0.2:
+        c["codec"] = True                       # session.set_payload_codec(stub): call/publish payloads travel as one encoded octet string
+    return c
+
+
+def cfg_codec(i):
+    c = cfg_rot(i)
+    if c["serializer"] == "ubjson":
+        c["serializer"] = "cbor"
+    c["codec"] = True
     return c
 
 
@@ -467,6 +490,15 @@ class Gen:
         self.steps.append({"op": kind + "_obj", "n": lab, "opts": call_opts, "methods": methods})
         return [m["n"] for m in methods]
 
+    def cancellable(self, again=False):
+        return sorted(l for l, p in self.pending.items() if p["kind"] == "call" and not p.get("obj") and bool(p.get("cancelled")) == again)
+
+    def cancel(self, label=None):
+        """The application cancels the pending result of a call (Deferred.cancel() / Future.cancel())."""
+        label = label or self.rng.choice(self.cancellable())
+        self.pending[label]["cancelled"] = True
+        self.steps.append({"op": "cancel", "to": label})
+
     def inflight_event(self, unsub=None):
         """EVENT for a subscription whose UNSUBSCRIBE is on its way (the broker dispatched it before processing the UNSUBSCRIBE)."""
         rng = self.rng
@@ -525,6 +557,8 @@ class Gen:
             else:
                 mode = "ok" if rng.random() < 0.68 else "error"
         st = {"op": "reply", "to": label, "mode": mode}
+        if self.cfg.get("codec") and rng.random() < 0.7:
+            st["enc"] = True                    # the peer's payload is encoded as well
         if kind == "subscribe" and mode != "progress":
             if self.group_of[label] != label:
                 self.groups[self.group_of[label]]["inflight"] -= 1
@@ -532,7 +566,7 @@ class Gen:
                 self.groups[label]["closed"] = True
         if mode == "error":
             a, k = self.pay.reply("e%d" % label, shape)
-            st.update(error=rng.choice(ERR_URIS), args=a, kwargs=k)
+            st.update(error="wamp.error.canceled" if p.get("cancelled") else rng.choice(ERR_URIS), args=a, kwargs=k)
         elif kind == "call":
             a, k = self.pay.reply(("g%d" if mode == "progress" else "r%d") % label, shape)
             st.update(args=a, kwargs=k)
@@ -552,7 +586,7 @@ class Gen:
             st["cut"] = round(rng.random(), 3)
         if then is not None:
             st["then"] = self.nested(None if then is True else then)
-        elif self.split_replies and rng.random() < 0.1 and p.get("obj") is None:
+        elif self.split_replies and rng.random() < 0.1 and p.get("obj") is None and not p.get("cancelled"):
             st["then"] = self.nested()
         self.steps.append(st)
         if mode != "progress":
@@ -581,6 +615,8 @@ class Gen:
         sub = sub or rng.choice(self.live_subs)
         a, k = self.pay.request("ev%d" % sub, rng.choice(["none", "one", "many", "kw", "ev"]))
         st = {"op": "event", "sub": sub, "args": a, "kwargs": k, "pubid": rng.choice([rng.randint(1, 20), rng.randint(1, 2 ** 53)])}
+        if self.cfg.get("codec") and rng.random() < 0.7:
+            st["enc"] = True
         if then is not None or (self.split_replies and rng.random() < 0.12):
             st["then"] = self.nested(None if then in (None, True) else then)
         self.steps.append(st)
@@ -646,8 +682,16 @@ def gen_history(rng):
             acts += ["zevent"] * 3
         if g.zombie_regs:
             acts += ["zinvoke"] * 3
+        if g.cancellable():
+            acts += ["cancel"] * 2
+        if g.cancellable(again=True):
+            acts += ["cancel-again"]
         a = rng.choice(acts)
-        if a == "zevent":
+        if a == "cancel":
+            g.cancel()
+        elif a == "cancel-again":
+            g.cancel(rng.choice(g.cancellable(again=True)))
+        elif a == "zevent":
             g.inflight_event()
         elif a == "zinvoke":
             g.inflight_invoke()
@@ -1163,6 +1207,77 @@ def inflight_case(spec, i, cfg):
     return g.case()
 
 
+# -- enumerated: call cancellation x what the router answers x order among other outstanding replies ------------------------
+def cancel_cases():
+    out = []
+    for after_progress in (False, True):
+        for answer in ("result", "error", "progress+result", "progress+error", "nothing"):
+            for pos in range(3):                  # where the answer to the cancelled call falls among the other replies
+                for again in (False, True):
+                    out.append((after_progress, answer, pos, again))
+    return out
+
+
+def cancel_case(spec, i, cfg):
+    after_progress, answer, pos, again = spec
+    g = Gen(random.Random(27000 + i), cfg)
+    s0 = g.issue("subscribe")
+    g.reply(s0, "ok")
+    other = g.issue("call", opts={"on_progress": True})
+    pb = g.issue("publish")
+    c = g.issue("call", opts={"on_progress": True, "details": bool(i % 2)} if (after_progress or "progress" in answer or i % 3 == 0) else
+                (None if i % 2 else {"timeout": 5}))
+    reg = g.issue("register")
+    if after_progress:
+        g.reply(c, "progress", "both")
+    if i % 4 == 1:
+        g.reply(other, "progress", "one")
+    g.cancel(c)
+    if again:
+        g.event(s0)
+        g.cancel(c)
+    others = [other, pb, reg]
+
+    def answer_cancelled():
+        if answer == "nothing":
+            return
+        if answer.startswith("progress"):
+            g.reply(c, "progress", "kw")
+        g.reply(c, "ok" if answer.endswith("result") else "error")
+    for j, l in enumerate(others):
+        if j == pos:
+            answer_cancelled()
+        if l == other:
+            g.reply(other, "progress", "both")
+        g.reply(l, "error" if (l + i) % 4 == 0 else "ok")
+    late = g.issue("call")
+    g.reply(late, "ok")
+    if answer != "nothing" and i % 5 == 0:
+        g.steps.append({"op": "violate", "cls": "duplicate", "to": c, "variant": "same", "salt": i})
+    return g.case()
+
+
+def codec_cases():
+    """Every call / publish option under a payload codec, plus reply-order permutations with encoded replies."""
+    out = [("opt", i) for i, (kind, o) in enumerate(option_cases()) if kind in ("call", "publish")]
+    out += [("prog", i) for i in range(0, len(progress_cases()), 3)]
+    for k, mixes in ((3, range(6)), (4, range(3))):
+        for mix_i in mixes:
+            for perm_i, perm in enumerate(itertools.permutations(range(k))):
+                out.append(("perm", (mix_i, k, perm, perm_i)))
+    return out
+
+
+def codec_case(spec, i, cfg):
+    fam, a = spec
+    if fam == "opt":
+        return option_case(option_cases()[a], a + i, cfg)
+    if fam == "prog":
+        return progress_case(progress_cases()[a], a, cfg)
+    mix_i, k, perm, perm_i = a
+    return perm_case(mix_i, k, perm, perm_i, cfg)
+
+
 def enumerated(tier):
     items = perm_cases(tier)
     vs = violation_cases()
@@ -1183,6 +1298,10 @@ def enumerated(tier):
         items += [("objform", (i, j)) for i in range(len(objform_cases()))]
     for j in range(2 if tier == "quick" else 8):
         items += [("inflight", (i, j)) for i in range(len(inflight_cases()))]
+    for j in range(3 if tier == "quick" else 10):
+        items += [("cancel", (i, j)) for i in range(len(cancel_cases()))]
+    for j in range(2 if tier == "quick" else 6):
+        items += [("codec", (i, j)) for i in range(len(codec_cases()))]
     items += [("idwrap", (i,)) for i in range(40 if tier == "quick" else 200)]
     items += [("sendfail", (i,)) for i in range(48 if tier == "quick" else 240)]
     return items
@@ -1212,6 +1331,12 @@ def build(item):
     if fam == "objform":
         i, j = a
         return objform_case(objform_cases()[i], i + 11 * j, cfg_rot(i + 3 * j))
+    if fam == "cancel":
+        i, j = a
+        return cancel_case(cancel_cases()[i], i + 7 * j, cfg_rot(i + 3 * j) if j != 1 else cfg_codec(i))
+    if fam == "codec":
+        i, j = a
+        return codec_case(codec_cases()[i], j, cfg_codec(i + 3 * j))
     if fam == "inflight":
         i, j = a
         return inflight_case(inflight_cases()[i], i + 13 * j, cfg_rot(i + 3 * j))
@@ -1273,10 +1398,12 @@ MANIFEST_ENTRY = {
              "nothing, spends no request id and completes once, the last one sends UNSUBSCRIBE with the next id; replies delivered from inside send() (loopback-style transport wrapper) complete "
              "their request like deferred ones for all six kinds; subscribe(obj)/register(obj) send one request per decorated method with exactly that "
              "method's options and complete their single future with each request's own reply; EVENTs/INVOCATIONs arriving while the UNSUBSCRIBE/"
-             "UNREGISTER is in flight leave the transport up and every other outstanding request completes with its own reply; pending tables match the model at "
+             "UNREGISTER is in flight leave the transport up and every other outstanding request completes with its own reply; with a payload codec set the requests carry "
+             "the same options and (enveloped) payload, encoded replies complete their requests; a cancelled call sends exactly one CANCEL, stays cancelled and "
+             "absorbs the router's late RESULT/ERROR/progress without disturbing other requests; pending tables match the model at "
              "every step. All k! reply orders for k<=6 outstanding mixed requests are enumerated. Held = no deviation on the executions in the evidence."),
     "note": ("trusts vf/c04_model.py (spec tables), vf/wamp_harness.py, the plain serializer libraries on the router side; pending-table sizes and "
-             "txaio.resolve/reject attempt counts are hooks; payload encryption, call cancellation and float timeouts are not driven; "
+             "txaio.resolve/reject attempt counts are hooks; real payload encryption (cryptobox KeyRing) and float timeouts are not driven; "
              "a subscribe/register record kept after a failed (oversize) send is observed, not judged"),
     "technique": "runtime monitoring: recorded API/wire/completion history checked online against a sequential request-reply model, exhaustive reply permutations + seeded adversarial histories",
 }
